@@ -1286,6 +1286,10 @@ func (run *simRun) probe(name string, args []interface{}) {
 		if ni := run.incOf(ld.Raft); ni != nil && !ni.dead && ni.obs.started {
 			run.led.onTransferExit(ni, ld, args[1].(transferLdr))
 		}
+	case "replication.runLoop:enter":
+		if g := run.sim.Cur(); g != nil {
+			g.User = args[0].(*replication)
+		}
 	case "storage.clearLog:enter":
 		// an installed snapshot supersedes the log: what was acknowledged beyond the snapshot
 		// index is legitimately discarded with it
@@ -1386,6 +1390,11 @@ func (run *simRun) probe(name string, args []interface{}) {
 			r := args[0].(*Raft)
 			t := args[1].(snapTaken)
 			run.dbg("n%d onSnapshotTaken meta=(%d,%d) err=%v prev=%d last=%d state=%c ldr.removeLTE=%d", r.nid, t.meta.index, t.meta.term, t.err, r.log.PrevIndex(), r.lastLogIndex, r.state, r.ldr.removeLTE)
+			if r.state == Leader {
+				for id, repl := range r.ldr.repls {
+					run.dbg("   repl n%d: status.match=%d noContact=%v | goroutine match=%d next=%d viewPrev=%d", id, repl.status.matchIndex, !repl.status.noContact.IsZero(), repl.matchIndex, repl.nextIndex, repl.log.PrevIndex())
+				}
+			}
 		case "Raft.onSnapshotTaken:exit":
 			r := args[0].(*Raft)
 			run.dbg("n%d onSnapshotTaken done prev=%d ldr.removeLTE=%d", r.nid, r.log.PrevIndex(), r.ldr.removeLTE)
